@@ -213,6 +213,27 @@ def struct_shape(d, v, kind, result=None, op=None):
     return {"k": kind, "fields": fields}
 
 
+def prune_extras(shape, snk):
+    """drop the undeclared-key sites of a deserialization shape that the built structure did not keep
+    (walks the shape next to the instance the operation returned)"""
+    if not isinstance(shape, dict):
+        return shape
+    if "w" in shape:
+        return {"w": shape["w"], "inner": prune_extras(shape["inner"], snk)}
+    if "c" in shape:
+        el = _elems(snk)
+        return {"c": shape["c"], "item": prune_extras(shape["item"], el[0]) if el else shape["item"]}
+    if "k" in shape:
+        if isinstance(snk, Structure):
+            kept = set(snk.__dict__)
+            return {"k": shape["k"], "fields": [[n, prune_extras(fs, snk.__dict__.get(n))] for n, fs in shape["fields"]
+                                                if fs != "untyped" or n in kept]}
+        if isinstance(snk, (list, tuple, collections.deque)):
+            return {"k": shape["k"], "fields": [[n, prune_extras(fs, snk[int(n)] if n.isdigit() and int(n) < len(snk) else None)]
+                                                for n, fs in shape["fields"]]}
+    return shape
+
+
 def site_chain(shape, path):
     """[(depth, kind, cat)] of the table sites on the way from the root of `shape` to the node at `path`
     (depth = number of path steps consumed before the site; a wrapper and its option share a depth)"""
@@ -453,7 +474,7 @@ def situation(case):
         def call():
             x = Deserializer(cls).deserialize(doc, keep_undefined=case.get("keepUndefined", True))
             if isinstance(doc, dict):
-                sit.shape = struct_shape(decl, doc, "root", x)
+                sit.shape = prune_extras(struct_shape(decl, doc, "root"), x)
             return x, doc, lambda: inst_fp(x)
         sit.call = call
         return sit
@@ -760,6 +781,9 @@ def _gen_cases(rng, tier, n_classes):
         from . import serde as SD
         doc = SD.dedupe_doc({"m": [[k, SD.to_doc(fd.get(k), v)] for k, v in kw]})
         cases.append(dict(base, op="deserialize", doc=doc))
+        # an undeclared key holding a container (kept as additional property or dropped, never edited)
+        cases.append(dict(base, op="deserialize", doc={"m": doc["m"] + [["zz_extra", {"l": [{"l": [1]}]}]]},
+                          keepUndefined=rng.choice([True, False]), stream="extra-key"))
         if rng.random() < 0.4:
             cases.append(dict(base, op="deserialize", doc=SD.dedupe_doc(SD.corrupt_doc(rng, doc)), stream="corrupt"))
         if rng.random() < 0.5:
